@@ -487,6 +487,146 @@ def _warm_list(nmax):
     return out
 
 
+# ---------------------------------------------------------------------------------------------------------------------
+# dict / list attributes whose VALUES may be None (Dict[str, Optional[int]], List[Optional[int]]): a stored None is an
+# ordinary element - "value is None" must never be read as "key / index absent" (seeded change C06-E)
+
+
+def _make_opt_classes(bootstrap):
+    from typing import Dict as _Dict, Optional as _Optional
+
+    from spec_classes import spec_class
+
+    @spec_class(bootstrap=bootstrap)
+    class KO:
+        omap: _Dict[str, _Optional[int]] = {}
+        olist: List[_Optional[int]] = []
+        y: int = 0
+
+    return KO
+
+
+OPT_FAM = {"eager": _make_opt_classes(True), "lazy": _make_opt_classes(False)}
+
+
+def make_optdict_step(fam, op, nmax):
+    KO = OPT_FAM[fam]
+
+    def step(n: int, e: List[int], nn: List[bool], k: int, v: int, vnone: bool, inplace: bool, c: int) -> str:
+        assume(0 <= n <= nmax)
+        assume(len(e) == nmax and len(nn) == nmax)
+        pre = {DKEYS[t]: (None if nn[t] else e[t]) for t in range(n)}
+        o = KO(omap={kk: vv for kk, vv in pre.items()})
+        assume(0 <= k <= n)
+        key = pick(DKEYS, k) if n + 1 >= len(DKEYS) else pick(DKEYS[: n + 1], k)
+        kw = {"_inplace": True} if inplace else {}
+        m = {kk: vv for kk, vv in pre.items()}
+        nv = None if vnone else v
+        fn = lambda x: c if x is None else None if x == c else x + 1
+        miss = False
+        if op == "with":
+            m[key] = nv
+            call = lambda: o.with_omap_item(key, nv, **kw)
+        elif op == "update":
+            if key in m:
+                m[key] = nv
+            else:
+                miss = True
+            call = lambda: o.update_omap_item(key, nv, **kw)
+        elif op == "transform":
+            if key in m:
+                m[key] = fn(m[key])
+            else:
+                miss = True
+            call = lambda: o.transform_omap_item(key, fn, **kw)
+        else:
+            if key in m:
+                del m[key]
+            else:
+                miss = True
+            call = lambda: o.without_omap_item(key, **kw)
+        try:
+            r = call()
+            exc = None
+        except Violation:
+            raise
+        except Exception as ex:
+            r, exc = None, ex
+        tag = f"C06/optdict/{op}"
+        if miss:
+            check(exc is not None, "a missing key raises", f"{tag}/missing-target-accepted", lambda: f"{getattr(r, 'omap', None)!r}")
+            check(isinstance(exc, MISS), "a missing key raises IndexError, KeyError or ValueError", f"{tag}/wrong-exception-{type(exc).__name__}", lambda: repr(exc))
+            return "missing-target"
+        check(exc is None, "the helper must not raise for an existing target (a stored None is a value, not an absent key)", f"{tag}/unexpected-{type(exc).__name__}", lambda: repr(exc))
+        if inplace:
+            check(r is o, "_inplace returns the receiver", f"{tag}/inplace-identity")
+        got = r.omap
+        check(isinstance(got, dict) and list(got.keys()) == list(m.keys()) and all(got[x] is m[x] or (got[x] is not None and m[x] is not None and got[x] == m[x]) for x in m), "assign / transform / delete exactly the addressed key, order of the others untouched", f"{tag}/content", lambda: f"got {got!r} want {m!r}")
+        check(r.y == 0 and r.olist == [], "other attributes untouched", f"{tag}/other-attr")
+        return "ok"
+
+    step.__name__ = f"optdict_{op}"
+    return step
+
+
+def make_optlist_step(fam, op, nmax):
+    KO = OPT_FAM[fam]
+
+    def step(n: int, e: List[int], nn: List[bool], i: int, v: int, vnone: bool, inplace: bool, c: int) -> str:
+        assume(0 <= n <= nmax)
+        assume(len(e) == nmax and len(nn) == nmax)
+        pre = [(None if nn[t] else e[t]) for t in range(n)]
+        o = KO(olist=[x for x in pre])
+        assume(-n - 1 <= i <= n + 1)
+        kw = {"_inplace": True} if inplace else {}
+        m = [x for x in pre]
+        nv = None if vnone else v
+        fn = lambda x: c if x is None else None if x == c else x + 1
+        miss = False
+        try:
+            j = norm_index(i, n)
+        except ModelMiss:
+            j, miss = None, True
+        if op == "update":
+            if not miss:
+                m[j] = nv
+            call = lambda: o.update_olist_item(i, nv, _by_index=True, **kw)
+        elif op == "transform":
+            if not miss:
+                m[j] = fn(m[j])
+            call = lambda: o.transform_olist_item(i, fn, _by_index=True, **kw)
+        else:
+            if not miss:
+                del m[j]
+            call = lambda: o.without_olist_item(i, _by_index=True, **kw)
+        try:
+            r = call()
+            exc = None
+        except Violation:
+            raise
+        except Exception as ex:
+            r, exc = None, ex
+        tag = f"C06/optlist/{op}"
+        if miss:
+            check(exc is not None, "a missing index raises", f"{tag}/missing-target-accepted", lambda: f"{getattr(r, 'olist', None)!r}")
+            check(isinstance(exc, MISS), "a missing index raises IndexError, KeyError or ValueError", f"{tag}/wrong-exception-{type(exc).__name__}", lambda: repr(exc))
+            return "missing-target"
+        check(exc is None, "the helper must not raise for an existing target (a stored None is a value, not an absent index)", f"{tag}/unexpected-{type(exc).__name__}", lambda: repr(exc))
+        if inplace:
+            check(r is o, "_inplace returns the receiver", f"{tag}/inplace-identity")
+        got = r.olist
+        check(isinstance(got, list) and len(got) == len(m) and all(got[t] is m[t] or (got[t] is not None and m[t] is not None and got[t] == m[t]) for t in range(len(m))), "replace / transform / delete exactly the addressed index, the others untouched", f"{tag}/content", lambda: f"got {got!r} want {m!r}")
+        check(r.y == 0 and r.omap == {}, "other attributes untouched", f"{tag}/other-attr")
+        return "ok"
+
+    step.__name__ = f"optlist_{op}"
+    return step
+
+
+def _warm_opt(nmax):
+    return [(n, [5] * nmax, [t % 2 == 0 for t in range(nmax)], k, 7, vn, ip, 1) for n in range(nmax + 1) for k in (0, n) for ip in (False, True) for vn in (False, True)]
+
+
 def _warm_dict(nmax):
     return [(n, [5] * nmax, mi, k, 7, ip, 1) for n in range(nmax + 1) for k in (0, n) for ip in (False, True) for mi in (False, True)]
 
@@ -514,6 +654,10 @@ def obligations(tier):
         for attr, sing in (("opts", "opt"), ("flags", "flag")):
             for op in ("with", "update", "transform", "without"):
                 obs.append(Ob(f"C06.{fam}.dict.{attr}.{op}", make_dict_step(fam, attr, sing, op, nmax), _warm_dict(nmax), f"K2.{attr} (Dict[str,int]); {op}; <= {nmax} entries, keys from {DKEYS}; addressed key existing or fresh; values symbolic ints; _inplace symbolic; container missing symbolic", expect={"ok"}, timeout=T))
+        for op in ("with", "update", "transform", "without"):
+            obs.append(Ob(f"C06.{fam}.optdict.omap.{op}", make_optdict_step(fam, op, nmax), _warm_opt(nmax), f"KO.omap (Dict[str,Optional[int]]); {op}; <= {nmax} entries, keys from {DKEYS}; each stored value a symbolic int or None; new value symbolic int or None; callback maps None->int and one int->None; _inplace symbolic", expect={"ok"}, timeout=T))
+        for op in ("update", "transform", "without"):
+            obs.append(Ob(f"C06.{fam}.optlist.olist.{op}", make_optlist_step(fam, op, nmax), _warm_opt(nmax), f"KO.olist (List[Optional[int]]); {op} by index in [-n-1,n+1]; <= {nmax} elements each a symbolic int or None; new value symbolic int or None; _inplace symbolic", expect={"ok"}, timeout=T))
         for attr, sing in (("vals", "val"), ("marks", "mark")):
             for op in ("with", "update", "transform", "without"):
                 obs.append(Ob(f"C06.{fam}.set.{attr}.{op}", make_set_step(fam, attr, sing, op, nmax), _warm_set(nmax), f"K2.{attr} (Set[int]); {op}; <= {nmax} elements in [0,3] (hashed: enumerated by the solver; 0 is falsy); _inplace symbolic", expect={"ok"}, timeout=T))
